@@ -18,6 +18,7 @@ import (
 	"github.com/tink-crypto/tink-go/v2/aead/aesgcm"
 	"github.com/tink-crypto/tink-go/v2/daead"
 	"github.com/tink-crypto/tink-go/v2/hybrid"
+	"github.com/tink-crypto/tink-go/v2/hybrid/ecies"
 	"github.com/tink-crypto/tink-go/v2/hybrid/hpke"
 	"github.com/tink-crypto/tink-go/v2/insecurecleartextkeyset"
 	"github.com/tink-crypto/tink-go/v2/jwt"
@@ -160,6 +161,15 @@ func TestAEADNonces(t *testing.T) {
 				t.Fatalf("%v: %v", c, err)
 			}
 			nonces[i] = append([]byte{}, ct[plen:plen+c.NonceLen]...)
+			// the bytes examined ARE the nonce: every 16th ciphertext is opened by the independent
+			// implementation with the nonce read at that offset (an offset that had drifted into the
+			// ciphertext body would show pseudo-random bytes and pass every statistic)
+			if i%16 == 5 {
+				if got, err := c.RefOpenFull(ct, ad); err != nil || !bytes.Equal(got, pt) {
+					t.Fatalf("%v: the independent implementation does not open ciphertext #%d with the nonce at offset %d..%d: %v", c, i, plen, plen+c.NonceLen, err)
+				}
+				evid.Add("nonce_offsets_validated", 1)
+			}
 		}
 		rep, msg := uniformBytes(fmt.Sprintf("aead-nonce/%s key=%d iv/salt=%d", c.Class(), len(c.Key), c.NonceLen), nonces)
 		record(t, "aead-nonce/"+c.Type, rep, msg)
@@ -203,6 +213,13 @@ func TestEnvelopeDEK(t *testing.T) {
 			}
 			deks = append(deks, k.GetKeyValue())
 			dekNonces = append(dekNonces, append([]byte{}, ct[4+l:4+l+12]...))
+			if i%16 == 5 { // the payload nonce is where it is read: the reference opens the payload under the recovered DEK
+				payload := aeadcase.Raw("AESGCM", k.GetKeyValue(), nil, "", 12, 16)
+				if got, err := payload.RefOpen(ct[4+l:], nil); err != nil || string(got) != "x" {
+					t.Fatalf("envelope/%s: the independent implementation does not open the payload of ciphertext #%d with the recovered DEK: %v", api, i, err)
+				}
+				evid.Add("nonce_offsets_validated", 1)
+			}
 		}
 		distinctOnly(t, "envelope", "envelope/"+api+"/encrypted-DEK", encDEKs)
 		rep, msg := uniformBytes("envelope/"+api+"/DEK key bytes (AES-256-GCM)", deks)
@@ -335,6 +352,29 @@ func TestHybridEncapsulations(t *testing.T) {
 		}
 		cfgs = append(cfgs, cfg{name, h, 65, 4})
 	}
+	// ECIES beyond the two templates: every NIST curve, compressed and uncompressed points, variants
+	// alternating (the sender's ephemeral point is the randomized field whatever the DEM)
+	dem := tk.Must(aesgcm.NewParameters(aesgcm.ParametersOpts{KeySizeInBytes: 32, IVSizeInBytes: 12, TagSizeInBytes: 16, Variant: aesgcm.VariantNoPrefix}))
+	for ci, c := range []struct {
+		name string
+		ct   ecies.CurveType
+		ht   ecies.HashType
+		size int
+		div  int
+	}{{"P256", ecies.NISTP256, ecies.SHA256, 32, 8}, {"P384", ecies.NISTP384, ecies.SHA384, 48, 32}, {"P521", ecies.NISTP521, ecies.SHA512, 66, 64}} {
+		for fi, f := range []struct {
+			name string
+			pf   ecies.PointFormat
+			enc  int
+		}{{"compressed", ecies.CompressedPointFormat, 1 + c.size}, {"uncompressed", ecies.UncompressedPointFormat, 1 + 2*c.size}, {"legacy-uncompressed", ecies.LegacyUncompressedPointFormat, 2 * c.size}} {
+			v := []ecies.Variant{ecies.VariantTink, ecies.VariantNoPrefix, ecies.VariantCrunchy}[(ci+fi)%3]
+			p, err := ecies.NewParameters(ecies.ParametersOpts{CurveType: c.ct, HashType: c.ht, NISTCurvePointFormat: f.pf, DEMParameters: dem, Salt: []byte("salt"), Variant: v})
+			if err != nil {
+				t.Fatalf("ecies.NewParameters(%s, %s): %v", c.name, f.name, err)
+			}
+			cfgs = append(cfgs, cfg{fmt.Sprintf("ECIES/%s/%s/%v", c.name, f.name, v), handleFromParams(t, p), f.enc, c.div})
+		}
+	}
 	sort.Slice(cfgs, func(i, j int) bool { return cfgs[i].name < cfgs[j].name })
 	for _, c := range cfgs {
 		pub, err := c.h.Public()
@@ -414,6 +454,13 @@ func TestRandomizedSignatures(t *testing.T) {
 		}
 		cfgs = append(cfgs, cfg{fmt.Sprintf("RSA-PSS-2048-salt%d", salt), handleFromParams(t, p), 64})
 	}
+	{
+		p, err := rsassapss.NewParameters(rsassapss.ParametersValues{ModulusSizeBits: 2048, SigHashType: rsassapss.SHA512, MGF1HashType: rsassapss.SHA512, PublicExponent: 65537, SaltLengthBytes: 64}, rsassapss.VariantNoPrefix)
+		if err != nil {
+			t.Fatal(err)
+		}
+		cfgs = append(cfgs, cfg{"RSA-PSS-2048-SHA512-salt64-NO_PREFIX", handleFromParams(t, p), 64})
+	}
 	for _, inst := range []mldsa.Instance{mldsa.MLDSA44, mldsa.MLDSA65, mldsa.MLDSA87} {
 		p, err := mldsa.NewParameters(inst, mldsa.VariantTink)
 		if err != nil {
@@ -425,7 +472,8 @@ func TestRandomizedSignatures(t *testing.T) {
 		ht slhdsa.HashType
 		ks int
 		st slhdsa.SignatureType
-	}{{slhdsa.SHA2, 64, slhdsa.FastSigning}, {slhdsa.SHAKE, 64, slhdsa.FastSigning}, {slhdsa.SHA2, 96, slhdsa.FastSigning}, {slhdsa.SHAKE, 128, slhdsa.FastSigning}, {slhdsa.SHA2, 64, slhdsa.SmallSignature}} {
+	}{{slhdsa.SHA2, 64, slhdsa.FastSigning}, {slhdsa.SHAKE, 64, slhdsa.FastSigning}, {slhdsa.SHA2, 96, slhdsa.FastSigning}, {slhdsa.SHAKE, 96, slhdsa.FastSigning}, {slhdsa.SHA2, 128, slhdsa.FastSigning}, {slhdsa.SHAKE, 128, slhdsa.FastSigning},
+		{slhdsa.SHA2, 64, slhdsa.SmallSignature}, {slhdsa.SHAKE, 64, slhdsa.SmallSignature}, {slhdsa.SHA2, 96, slhdsa.SmallSignature}, {slhdsa.SHAKE, 96, slhdsa.SmallSignature}, {slhdsa.SHA2, 128, slhdsa.SmallSignature}, {slhdsa.SHAKE, 128, slhdsa.SmallSignature}} {
 		p, err := slhdsa.NewParameters(s.ht, s.ks, s.st, slhdsa.VariantTink)
 		if err != nil {
 			t.Fatalf("slhdsa.NewParameters: %v", err)
